@@ -352,6 +352,8 @@ def _reindex(ev, rm):
                 "pat": [rm[x] for x in r["pat"]]}
 
     def conv(c):
+        if "same" in c:
+            return c
         out = {"delim": rm[c["delim"]], "recs": [rec(r) for r in c["recs"]]}
         for k in ("pm", "s2p", "rpm", "trie", "pat", "bimap", "rbimap"):
             out[k] = [[rm[a], rm[b]] for a, b in c[k]]
